@@ -1,4 +1,151 @@
+(* C13 — Renewal hands the data over to the successor contract.
+   Statements only; every proof is [exact lemma].  Model: Model.v.  Vocabulary as in
+   Props_C03.v; additionally
+     handover v1 s s' old new c0   (ProofsRenew.v) the successor row exists with the persisted list,
+                     file size and Merkle root of the predecessor's row c0 before the renewal, is
+                     not renewed itself and points back to old; the list served for new is the one
+                     served for old, which is the predecessor's persisted list; the predecessor row
+                     points to new, holds no roots and (v1) sits at the maximum revision number;
+                     stored sectors and their slots are untouched
+     renewed1/renewed2 s id d      contract id (v1/v2) has been renewed to d
+
+   Reading: for v1 "refuses further revisions" is Manager.Lock refusing (isGoodForModification,
+   maximum revision number) — every RHP2/RHP3 revision and renewal starts with it; Manager.
+   ReviseContract itself never looks at the contract.  For v2 it is ReviseV2Contract,
+   LockV2Contract and RenewV2Contract themselves. *)
 From HostdBase Require Import Base.
-From HostdRoots Require Import Model.
-Example c13_nonvacuous : fold_upd [1;2]%N [Append 3%N] = Ok [1;2;3]%N.
-Proof. vm_compute; reflexivity. Qed.
+From HostdRoots Require Import Model Lists ProofsReplay ProofsInv ProofsStep ProofsRenew ProofsSpec ProofsTop.
+Open Scope N_scope.
+
+(* RHP2 renew-and-clear / RHP3 renew (Manager.RenewContract) accepted in a reachable state *)
+Theorem c13_renew_v1_hands_over :
+  forall meta s old new crev cfsize cmroot nrev nfsize nmroot nws mold fault s',
+  reach meta s -> disc meta s (Renew1 old new crev cfsize cmroot nrev nfsize nmroot nws mold fault) ->
+  step s (Renew1 old new crev cfsize cmroot nrev nfsize nmroot nws mold fault) = (s', ORes (Ok tt)) ->
+  exists c0, alookup old (t1 (dbs s)) = Some c0 /\ rto c0 = None /\ handover true s s' old new c0.
+Proof. exact c13_renew1_l. Qed.
+Print Assumptions c13_renew_v1_hands_over.
+
+(* RHP4 renew and refresh (Manager.RenewV2Contract) accepted in a reachable state *)
+Theorem c13_renew_v2_hands_over : forall meta s old new c mold wf fault s',
+  reach meta s -> disc meta s (Renew2 old new c mold wf fault) ->
+  step s (Renew2 old new c mold wf fault) = (s', ORes (Ok tt)) ->
+  exists c0, alookup old (t2 (dbs s)) = Some c0 /\ rto c0 = None /\ handover false s s' old new c0.
+Proof. exact c13_renew2_l. Qed.
+Print Assumptions c13_renew_v2_hands_over.
+
+(* In every reachable state (chains of any length): links are mutual, a renewed contract holds no
+   roots (they moved on), a renewed v1 contract sits at the maximum revision number. *)
+Theorem c13_links_mutual : forall meta s id c d, reach meta s ->
+  (alookup id (t1 (dbs s)) = Some c -> rto c = Some d ->
+     rows c = [] /\ rev c = max_rev /\ d <> id /\
+     exists c', alookup d (t1 (dbs s)) = Some c' /\ rfrom c' = Some id) /\
+  (alookup id (t2 (dbs s)) = Some c -> rto c = Some d ->
+     rows c = [] /\ d <> id /\
+     exists c', alookup d (t2 (dbs s)) = Some c' /\ rfrom c' = Some id) /\
+  (alookup id (t1 (dbs s)) = Some c -> rfrom c = Some d ->
+     exists c', alookup d (t1 (dbs s)) = Some c' /\ rto c' = Some id) /\
+  (alookup id (t2 (dbs s)) = Some c -> rfrom c = Some d ->
+     exists c', alookup d (t2 (dbs s)) = Some c' /\ rto c' = Some id).
+Proof. exact c13_links_l. Qed.
+Print Assumptions c13_links_mutual.
+
+(* By induction over histories with any number of generations: the tip of a renewal chain
+   holds the list implied by all accepted modifications of the whole lineage — the
+   specification machine hands the list from old to new at every accepted renewal. *)
+Theorem c13_chain_of_any_length : forall meta ops id c,
+  disc_run meta init ops -> is_live (runs init ops) id c ->
+  tbl_list (rows c) = aget (aruns init ainit ops) id /\
+  cache_get (runs init ops) id = aget (aruns init ainit ops) id /\
+  fsize c = sector_size * nlen (aget (aruns init ainit ops) id) /\
+  mroot c = meta (aget (aruns init ainit ops) id).
+Proof. exact c03_spec_l. Qed.
+Print Assumptions c13_chain_of_any_length.
+
+(* A renewed v1 contract refuses the lock, now and after any disciplined continuation. *)
+Theorem c13_v1_predecessor_refuses_forever : forall meta s id d ops,
+  reach meta s -> renewed1 s id d -> disc_run meta s ops ->
+  let s' := runs s ops in
+  renewed1 s' id d /\
+  (step s' (Lock1 id) = (s', ORes (Err EInvalid)) \/ step s' (Lock1 id) = (s', ORes (Err EInsufficient))).
+Proof. exact c13_pred1_l. Qed.
+Print Assumptions c13_v1_predecessor_refuses_forever.
+
+(* A renewed v2 contract refuses every revision (whatever its content, with or without a store
+   failure), reports Renewed = true and Revisable = false, and cannot be renewed again — now and
+   after any disciplined continuation. *)
+Theorem c13_v2_predecessor_refuses_forever : forall meta s id d ops,
+  reach meta s -> renewed2 s id d -> disc_run meta s ops ->
+  let s' := runs s ops in
+  renewed2 s' id d /\
+  (forall c newroots mnew rsig hsig fault,
+     step s' (Revise2 id c newroots mnew rsig hsig fault) = (s', ORes (Err EInvalid)) \/
+     step s' (Revise2 id c newroots mnew rsig hsig fault) = (s', ORes (Err EOther))) /\
+  (mem id (locks s') = false -> exists r l, step s' (Lock2 id) = (s', OLock2 (Ok (r, true, false, l)))) /\
+  (forall c mold wf fault, exists e, step s' (Renew2 id d c mold wf fault) = (s', ORes (Err e))).
+Proof. exact c13_pred2_l. Qed.
+Print Assumptions c13_v2_predecessor_refuses_forever.
+
+(* The successor accepts: it can be locked when nobody holds it and its window is far enough,
+   and (it is a live contract) c03_commit_accepted / c03_v2_revision_accepted apply to it. *)
+Theorem c13_successor_accepts_lock : forall s' new cn,
+  alookup new (t1 (dbs s')) = Some cn -> mem new (locks s') = false -> good1 (height s') cn = true ->
+  snd (step s' (Lock1 new)) = ORes (Ok tt).
+Proof. exact c13_successor_lock_l. Qed.
+Print Assumptions c13_successor_accepts_lock.
+
+(* A renewal that fails validation or persistence (at any statement: c03_failure_at_any_statement
+   covers Renew1 and Renew2) leaves the predecessor and everything else unchanged. *)
+Theorem c13_failed_renewal_unchanged : forall s o s' r,
+  step s o = (s', ORes r) -> r <> Ok tt -> s' = s.
+Proof. exact step_error_unchanged. Qed.
+Print Assumptions c13_failed_renewal_unchanged.
+
+Theorem c13_renewal_failure_at_any_statement : forall s o k,
+  match o with
+  | Commit1 u a b c _ =>
+      step s (Commit1 u a b c (Some k)) = step s (Commit1 u a b c None) \/
+      step s (Commit1 u a b c (Some k)) = (s, ORes (Err EOther))
+  | Renew1 a b c d e f g h i j _ =>
+      step s (Renew1 a b c d e f g h i j (Some k)) = step s (Renew1 a b c d e f g h i j None) \/
+      step s (Renew1 a b c d e f g h i j (Some k)) = (s, ORes (Err EOther))
+  | Revise2 a b c d e f _ =>
+      step s (Revise2 a b c d e f (Some k)) = step s (Revise2 a b c d e f None) \/
+      step s (Revise2 a b c d e f (Some k)) = (s, ORes (Err EOther))
+  | Renew2 a b c d e _ =>
+      step s (Renew2 a b c d e (Some k)) = step s (Renew2 a b c d e None) \/
+      step s (Renew2 a b c d e (Some k)) = (s, ORes (Err EOther))
+  | _ => True
+  end.
+Proof. exact fault_any_statement. Qed.
+Print Assumptions c13_renewal_failure_at_any_statement.
+
+(* The sectors stay stored: a renewal keeps every referenced sector referenced (and, by
+   [handover], touches neither stored_sectors nor the volume slots); pruning never takes the
+   slot of a referenced sector; no other operation takes a slot away. *)
+Theorem c13_renewal_keeps_sectors_referenced : forall meta s o s' r,
+  reach meta s -> disc meta s o -> step s o = (s', ORes (Ok tt)) ->
+  match o with Renew1 _ _ _ _ _ _ _ _ _ _ _ | Renew2 _ _ _ _ _ _ => True | _ => False end ->
+  referenced (dbs s) r = true -> referenced (dbs s') r = true.
+Proof. exact c13_keeps_refs_l. Qed.
+Print Assumptions c13_renewal_keeps_sectors_referenced.
+
+Theorem c13_prune_keeps_referenced : forall s r,
+  referenced (dbs s) r = true -> mem r (located (dbs s)) = true ->
+  mem r (located (dbs (fst (step s Prune)))) = true /\ referenced (dbs (fst (step s Prune))) r = true.
+Proof. exact prune_keeps_referenced. Qed.
+Print Assumptions c13_prune_keeps_referenced.
+
+Theorem c13_only_prune_frees_slots : forall s o r, o <> Prune ->
+  mem r (located (dbs s)) = true -> mem r (located (dbs (fst (step s o)))) = true.
+Proof. exact located_kept. Qed.
+Print Assumptions c13_only_prune_frees_slots.
+
+(* non-vacuity: the example history renews contract 7 to 8; 7 then refuses the lock, 8 accepts it
+   and was revised *)
+Example c13_nonvacuous :
+  disc_run meta0 init ex_ops /\
+  renewed1 (runs init ex_ops) 7 8 /\
+  snd (step (runs init ex_ops) (Lock1 7)) = ORes (Err EInvalid) /\
+  snd (step (runs init ex_ops) (Lock1 8)) = ORes (Ok tt).
+Proof. exact (conj ex_disc (proj2 (proj2 ex_final))). Qed.
